@@ -183,6 +183,9 @@ structure World where
   blanketHit : List Nat → Bool
   /-- user requirement `k` evaluates to FALSE -/
   userFalse : Nat → Bool
+  /-- evaluating the requirement on this sample raises RejectionException (e.g. a user requirement
+      evaluating a vector field outside its domain) -/
+  raises : ReqKind → Bool
 
 /-- `falsifiedByInner` -/
 def falsified (c : Cfg) (w : World) : ReqKind → Bool
